@@ -232,7 +232,7 @@ theorem C05_new_request_appended (o o' : Outbound) (id off len : Nat) (hser : o.
 every PUBREL and every retained packet enqueued before it (smaller serial, so in particular every
 packet that was there to be replayed when the connection was made) has been sent completely and
 flushed, and nothing is half-written. A packet that has been sent completely is not handed out again
-(`nextStep_not_sent`): so each replayed packet goes out once, before any new identifier-bearing one. -/
+(`sf_nextStep_not_sent`): so each replayed packet goes out once, before any new identifier-bearing one. -/
 theorem C05_replay_before_new (o : Outbound) (hser : o.SerInv) (id off len : Nat)
     (h : o.nextStep = some (.retained id off len (.write 0))) :
     (∀ e ∈ o.control, e.state = .sent) ∧ (∀ e ∈ o.release, e.state = .sent) ∧
@@ -240,7 +240,7 @@ theorem C05_replay_before_new (o : Outbound) (hser : o.SerInv) (id off len : Nat
       ∀ x ∈ o.retained, x.ser < e.ser → x.state = .sent) ∧
     (∀ step, o.nextStep = some step → step.state ≠ .sent) :=
   ⟨(nextStep_retained_fresh o id off len h).1, (nextStep_retained_fresh o id off len h).2.1,
-   nextStep_retained_fresh_ser o hser id off len h, fun step hs => nextStep_not_sent o step hs⟩
+   nextStep_retained_fresh_ser o hser id off len h, fun step hs => sf_nextStep_not_sent o step hs⟩
 
 /-- The serial numbering used above is an invariant of every execution (C17), and serials only grow
 along an execution (`Keeps`), so "enqueued before" is meaningful across reconnects. -/
